@@ -80,7 +80,8 @@ for line in p.stdout:
         stream = bytes.fromhex(hexs)
         want = ref_http.observe(stream)
         n_streams += 1
-        run.distinct.add(obs)
+        if ' | ' in obs or '=> 4' in obs:      # non-trivial: something was dispatched or rejected (not merely waiting for more bytes)
+            run.distinct.add(hexs)
         term = obs.rsplit('=> ', 1)[1]
         term_seen[term] = term_seen.get(term, 0) + 1
         if want != obs:
@@ -139,5 +140,5 @@ run.assumptions += ['the request dispatcher replies (200, empty body) before the
 sys.exit(run.finish(rule='streams from a grammar (request lines, header lines, Content-Length and chunked bodies, pipelining/persistence, 8192-byte limits +-1; CRLF and bare-LF framing) x every fragmentation '
                          'with <= k cut points (quick: k=3 for <=64 bytes else 2; thorough: k=4 for <=56 bytes, 3 for <=150, else 2; marked positions only for long streams) + strides 1,2,3,7,1000,4096,8191..8193, x 2 I/O-loop schedules; '
                          'each delivery compared with the single delivery, each single delivery with an independent whole-stream reference parser; ClientAllowed: all <=2-subsets of 13 -rpcallowip specs x 40 addresses vs ipaddress; '
-                         'RPC credentials: 33 Authorization variants vs base64/hmac reference; distinct = distinct single-delivery observations',
+                         'RPC credentials: 33 Authorization variants vs base64/hmac reference; distinct = distinct streams that lead to at least one dispatched request or an error reply',
                     exhaustive=bool(counts.get('exhaustive', 0))))
